@@ -63,6 +63,25 @@ func cmdVC(args []string) {
 	for _, a := range fs.Args() {
 		if strings.HasPrefix(a, "lemma:") {
 			e.VerifyLemma(strings.TrimPrefix(a, "lemma:"))
+		} else if strings.HasPrefix(a, "witness:") {
+			var ws WitnessSpec
+			spec := strings.TrimPrefix(a, "witness:")
+			if strings.HasPrefix(spec, "{") {
+				if err := json.Unmarshal([]byte(spec), &ws); err != nil {
+					fmt.Println("witness spec:", err)
+					os.Exit(2)
+				}
+			} else {
+				ws.Func = spec
+			}
+			reps, fails := e.runWitness(*repo, *work, []WitnessSpec{ws}, 1, "quick", *secs)
+			for _, r := range reps {
+				out, _ := json.Marshal(r)
+				fmt.Println("witness:", string(out))
+			}
+			for _, f := range fails {
+				fmt.Printf("WITNESS-FAIL %s [%s] input: %s — %s\n", f.Obligation, f.Class, f.Input, f.Detail)
+			}
 		} else if strings.HasPrefix(a, "static:") {
 			e.runStatic(strings.TrimPrefix(a, "static:"))
 		} else {
